@@ -754,7 +754,7 @@ def run_e2e(ctx, objdir, case, d, res, amap, num, exe2=None):
         ctx.tag("e2e:" + (argv[0] if argv else "default"))
     # --task (LOST-free tasks only: the model of report_task covers those)
     task_lines = []
-    if case["kind"] in ("forest", "marked"):
+    if case["kind"] in ("forest", "marked", "suffix"):
         rc, out, err = datadir.uftrace(objdir, "report", d, ["--task", "-s", "tid"])
         pr = parse_report(out)
         if rc == 0 and pr:
@@ -853,7 +853,12 @@ def common_meta(ctx):
                 "short keys, --avg-* with -f), --task, --diff DIR DIR and --diff against a second generated data set; "
                 "distinct = distinct record lists; non-trivial = >= 2 nesting levels and >= 1 boundary tag")
     ctx.trusted = [
-        "Coq 8.16.1 kernel incl. vm_compute; no axioms (Print Assumptions: closed under the global context)",
+        "Coq 8.16.1 kernel incl. vm_compute; no axioms (Print Assumptions: closed under the global context, except "
+        "the three C08_stdv_*_legacy_refuted statements, which compute with Coq's primitive 63-bit integers and "
+        "binary64 floats: Print Assumptions lists those primitives - PrimInt63.*, PrimFloat add/sub/mul/div/sqrt/"
+        "of_uint63/ltb/... - and nothing else)",
+        "coq/theories/C08/Stdv.v: the stdv column computed with Coq's primitive floats = the machine's IEEE-754 "
+        "binary64 arithmetic under vm_compute (compared bit for bit with the implementation's doubles)",
         "hand-written model coq/theories/C08/Model.v of fstack_account_time/fstack_update_stack_count (utils/fstack.c), "
         "build_function_tree/add_lost_fstack/add_remaining_fstack/report_task (cmds/report.c), report_update_node/"
         "finish_time_stat/insert_node/report_diff_nodes (utils/report.c), __print_time_unit (utils/debug.c); the two "
@@ -866,7 +871,8 @@ def common_meta(ctx):
         "no filters/triggers/time range/kernel or event records (those are C07's); default depth 1024 >= max_stack",
         "symbol lookup is taken as given (C10); the order in which read_rstack merges tasks is compared (merged_rows) "
         "but not derived: theorem C08_merge_irrelevant shows the report is the same for every interleaving",
-        "total-stdv/self-stdv (floating point) are not modelled or compared; sort keys *_stdv and `size` are not generated; "
+        "the Size column and the key `size` are judged in props/c08.py (a symbol's size is no figure of the trace; the "
+        "Coq model has no size); "
         "--diff is exercised with the default policy/key only; rows of equal |difference| are compared as a set; the "
         "sign of a time difference is judged (minus = decrease)",
         "LOST markers with whole calls dropped (kind `marked`) are judged by the checkers against the forest of the "
